@@ -638,6 +638,10 @@ func (*Meta) createFkeys(mu *metaUpdate, ts, ac *schema.Schema) {
 				ac.Table + " -> " + fk.Table + str.Join("(,)", fkCols))
 		}
 		mu.putSchema(target)
+		if target.Table == ts.Table {
+			// mu now has the copy, later IIndex updates must go to it
+			ts = &target.Schema
+		}
 	}
 }
 
